@@ -149,6 +149,8 @@ func features(ser string) sqlgen.Features {
 	f.QuotedDDLNames = hx.Allowed("c06.ddl_quoted_names")
 	f.IndexNulls = hx.Allowed("c06.index_nulls")
 	f.DDLExtras = hx.Allowed("c06.ddl_extras")
+	f.Alter = hx.Allowed("c06.alter_table")
+	f.AlterQualified = hx.Allowed("c06.alter_qualified_table")
 	if ser == "cli" && !hx.Allowed("c06.cli.unimplemented_clauses") {
 		// listed finding: the CLI formatter's own statement printers drop clauses
 		// they do not implement; steer the cli serialiser around exactly those
